@@ -422,11 +422,9 @@ func resolveUnionBatch(ctx context.Context, sources []interface{}, typ *Union, s
 		// fragments on that type. resolveObjectBatch flattens them into one
 		// merged selection, honoring the fragments' directives. An object
 		// whose type has no fragment still resolves to an (empty) object.
-		applicable := &SelectionSet{Selections: selectionSet.Selections}
-		for _, fragment := range selectionSet.Fragments {
-			if fragment.On == srcType {
-				applicable.Fragments = append(applicable.Fragments, fragment)
-			}
+		applicable := &SelectionSet{}
+		if err := collectUnionSelections(typ, srcType, selectionSet, applicable); err != nil {
+			return nil, err
 		}
 		units, err := resolveObjectBatch(ctx, sources, gqlType, applicable, destinationsByType[srcType])
 		if err != nil {
@@ -435,6 +433,30 @@ func resolveUnionBatch(ctx context.Context, sources []interface{}, typ *Union, s
 		workUnits = append(workUnits, units...)
 	}
 	return workUnits, nil
+}
+
+// collectUnionSelections gathers what a union's selection set selects for the
+// member srcType: the union-level selections, the fragments on srcType, and,
+// recursively, the contents of included fragments on the union itself.
+func collectUnionSelections(typ *Union, srcType string, selectionSet *SelectionSet, into *SelectionSet) error {
+	into.Selections = append(into.Selections, selectionSet.Selections...)
+	for _, fragment := range selectionSet.Fragments {
+		switch fragment.On {
+		case srcType:
+			into.Fragments = append(into.Fragments, fragment)
+		case typ.Name:
+			ok, err := ShouldIncludeNode(fragment.Directives)
+			if err != nil {
+				return err
+			}
+			if ok {
+				if err := collectUnionSelections(typ, srcType, fragment.SelectionSet, into); err != nil {
+					return err
+				}
+			}
+		}
+	}
+	return nil
 }
 
 // Traverses the object selections and resolves or creates work units to resolve
